@@ -1,0 +1,303 @@
+//go:build verif
+
+package leveldb
+
+import (
+	"sync"
+
+	"github.com/syndtr/goleveldb/leveldb/comparer"
+	"github.com/syndtr/goleveldb/leveldb/memdb"
+	"github.com/syndtr/goleveldb/leveldb/opt"
+	"github.com/syndtr/goleveldb/leveldb/storage"
+)
+
+// This file exists only in builds with the "verif" tag. It exports read-only
+// views of internal state and an event/yield hook for external checkers.
+
+// VerifTable describes a table file as recorded in a version.
+type VerifTable struct {
+	Level      int
+	Num        int64
+	Size       int64
+	Imin, Imax []byte
+}
+
+// VerifVersion is a version's id and table metadata per level.
+type VerifVersion struct {
+	ID     int64
+	Levels [][]VerifTable
+}
+
+// VerifRecord is the part of a session record that edits the table set.
+type VerifRecord struct {
+	HasJournalNum bool
+	JournalNum    int64
+	HasSeqNum     bool
+	SeqNum        uint64
+	Added         []VerifTable
+	Deleted       []VerifTable // only Level and Num are set
+}
+
+var (
+	verifMu sync.Mutex
+	// VerifSink, when set (before any DB is opened), receives every hook
+	// event; calls are serialised.
+	VerifSink func(point string, args []interface{})
+	// VerifYield, when set, is called (outside the event lock) at every hook
+	// point so that a checker can stretch that window.
+	VerifYield func(point string)
+)
+
+func verifTables(level int, tf tFiles) []VerifTable {
+	out := make([]VerifTable, 0, len(tf))
+	for _, t := range tf {
+		out = append(out, VerifTable{Level: level, Num: t.fd.Num, Size: t.size,
+			Imin: append([]byte(nil), t.imin...), Imax: append([]byte(nil), t.imax...)})
+	}
+	return out
+}
+
+func verifVersion(v *version) *VerifVersion {
+	if v == nil {
+		return nil
+	}
+	vv := &VerifVersion{ID: v.id}
+	for level, tf := range v.levels {
+		vv.Levels = append(vv.Levels, verifTables(level, tf))
+	}
+	return vv
+}
+
+func verifRecord(r *sessionRecord) *VerifRecord {
+	if r == nil {
+		return nil
+	}
+	vr := &VerifRecord{
+		HasJournalNum: r.has(recJournalNum), JournalNum: r.journalNum,
+		HasSeqNum: r.has(recSeqNum), SeqNum: r.seqNum,
+	}
+	for _, t := range r.addedTables {
+		vr.Added = append(vr.Added, VerifTable{Level: t.level, Num: t.num, Size: t.size,
+			Imin: append([]byte(nil), t.imin...), Imax: append([]byte(nil), t.imax...)})
+	}
+	for _, t := range r.deletedTables {
+		vr.Deleted = append(vr.Deleted, VerifTable{Level: t.level, Num: t.num})
+	}
+	return vr
+}
+
+func verifAt(point string, args ...interface{}) {
+	if sink := VerifSink; sink != nil {
+		conv := make([]interface{}, len(args))
+		for i, a := range args {
+			switch x := a.(type) {
+			case *version:
+				conv[i] = verifVersion(x)
+			case *sessionRecord:
+				conv[i] = verifRecord(x)
+			case tFiles:
+				conv[i] = verifTables(-1, x)
+			case []tFiles:
+				vv := &VerifVersion{ID: -1}
+				for level, tf := range x {
+					vv.Levels = append(vv.Levels, verifTables(level, tf))
+				}
+				conv[i] = vv
+			case internalKey:
+				conv[i] = []byte(x)
+			default:
+				conv[i] = a
+			}
+		}
+		verifMu.Lock()
+		sink(point, conv)
+		verifMu.Unlock()
+	}
+	if y := VerifYield; y != nil {
+		y(point)
+	}
+}
+
+// VerifIComparer returns the internal-key comparer built over ucmp.
+func VerifIComparer(ucmp comparer.Comparer) comparer.Comparer {
+	return &iComparer{ucmp}
+}
+
+// VerifMakeInternalKey exposes makeInternalKey (it panics on invalid input).
+func VerifMakeInternalKey(ukey []byte, seq uint64, kt uint) []byte {
+	return makeInternalKey(nil, ukey, seq, keyType(kt))
+}
+
+// VerifParseInternalKey exposes parseInternalKey.
+func VerifParseInternalKey(ik []byte) (ukey []byte, seq uint64, kt uint, err error) {
+	u, s, k, e := parseInternalKey(ik)
+	return u, s, uint(k), e
+}
+
+// VerifEntry is one internal entry.
+type VerifEntry struct {
+	IKey, Value []byte
+}
+
+// VerifState is a consistent-enough view of the DB for a quiescent DB.
+type VerifState struct {
+	Seq           uint64
+	FrozenSeq     uint64
+	StSeqNum      uint64
+	StJournalNum  int64
+	JournalNum    int64
+	FrozenJournal int64
+	ManifestNum   int64
+	NextFileNum   int64
+	Snapshots     []uint64
+	Mem, Frozen   []VerifEntry
+	HasFrozen     bool
+	Version       *VerifVersion
+}
+
+func verifMemEntries(m *memdb.DB) []VerifEntry {
+	var out []VerifEntry
+	it := m.NewIterator(nil)
+	for it.Next() {
+		out = append(out, VerifEntry{append([]byte(nil), it.Key()...), append([]byte(nil), it.Value()...)})
+	}
+	it.Release()
+	return out
+}
+
+// VerifMemEntries lists the entries of a memdb (e.g. the one named by a "c.flush" event).
+func VerifMemEntries(m *memdb.DB) []VerifEntry { return verifMemEntries(m) }
+
+// VerifDump returns the current state; it is meant to be called while no
+// write is in flight (background compaction may run, the view of version and
+// buffers is taken the way readers take it).
+func VerifDump(db *DB) *VerifState {
+	st := &VerifState{}
+	if db.isClosed() {
+		return st
+	}
+	db.snapsMu.Lock()
+	st.Seq = db.getSeq()
+	for e := db.snapsList.Front(); e != nil; e = e.Next() {
+		st.Snapshots = append(st.Snapshots, e.Value.(*snapshotElement).seq)
+	}
+	db.snapsMu.Unlock()
+	em, fm := db.getMems()
+	db.memMu.RLock()
+	st.FrozenSeq = db.frozenSeq
+	st.JournalNum = db.journalFd.Num
+	st.FrozenJournal = db.frozenJournalFd.Num
+	db.memMu.RUnlock()
+	if em != nil {
+		st.Mem = verifMemEntries(em.DB)
+		em.decref()
+	}
+	if fm != nil {
+		st.HasFrozen = true
+		st.Frozen = verifMemEntries(fm.DB)
+		fm.decref()
+	}
+	v := db.s.version()
+	st.Version = verifVersion(v)
+	v.release()
+	st.StSeqNum = db.s.stSeqNum
+	st.StJournalNum = db.s.stJournalNum
+	st.ManifestNum = db.s.manifestFd.Num
+	st.NextFileNum = db.s.nextFileNum()
+	return st
+}
+
+// VerifTableEntries reads every entry of a live table through the table cache.
+func VerifTableEntries(db *DB, t VerifTable) ([]VerifEntry, error) {
+	f := newTableFile(storageTableFd(t.Num), t.Size, internalKey(t.Imin), internalKey(t.Imax))
+	it := db.s.tops.newIterator(f, nil, &opt.ReadOptions{DontFillCache: true})
+	defer it.Release()
+	var out []VerifEntry
+	for it.Next() {
+		out = append(out, VerifEntry{append([]byte(nil), it.Key()...), append([]byte(nil), it.Value()...)})
+	}
+	return out, it.Error()
+}
+
+// VerifWaitIdle waits until the pending memdb flush and all table compactions
+// that are due have finished (or an error is reported).
+func VerifWaitIdle(db *DB) error {
+	for i := 0; i < 1000; i++ {
+		if db.isClosed() {
+			return ErrClosed
+		}
+		if err := db.compTriggerWait(db.mcompCmdC); err != nil {
+			return err
+		}
+		if err := db.compTriggerWait(db.tcompCmdC); err != nil {
+			return err
+		}
+		fm := db.getFrozenMem()
+		if fm != nil {
+			fm.decref()
+			continue
+		}
+		if !db.tableNeedCompaction() {
+			return nil
+		}
+	}
+	return nil
+}
+
+// VerifLocks reports which of the blocking resources are currently taken.
+type VerifLockState struct {
+	WriteLock    bool // a token sits in writeLockC
+	CompCommitLk bool // compCommitLk is held
+	OpenTx       bool // db.tr != nil
+}
+
+// VerifLocks probes the lock state without blocking. It must not race with
+// running writers (the probe itself takes and releases the resources).
+func VerifLocks(db *DB) VerifLockState {
+	var st VerifLockState
+	select {
+	case db.writeLockC <- struct{}{}:
+		st.OpenTx = db.tr != nil
+		<-db.writeLockC
+	default:
+		st.WriteLock = true
+	}
+	if db.compCommitLk.TryLock() {
+		db.compCommitLk.Unlock()
+	} else {
+		st.CompCommitLk = true
+	}
+	return st
+}
+
+// VerifFileRefs returns the reference loop's table reference counters.
+func VerifFileRefs(db *DB) map[int64]int {
+	ch := make(chan map[int64]int)
+	select {
+	case db.s.fileRefCh <- ch:
+		return <-ch
+	case <-db.s.closeC:
+		return nil
+	}
+}
+
+// VerifSnapshotSeq returns the sequence number a snapshot reads at.
+func VerifSnapshotSeq(snap *Snapshot) uint64 { return snap.elem.seq }
+
+// VerifGetOverlaps runs tFiles.getOverlaps on a synthetic level.
+func VerifGetOverlaps(ucmp comparer.Comparer, tables []VerifTable, umin, umax []byte, overlapped bool) []int64 {
+	icmp := &iComparer{ucmp}
+	var tf tFiles
+	for _, t := range tables {
+		tf = append(tf, newTableFile(storageTableFd(t.Num), t.Size, internalKey(t.Imin), internalKey(t.Imax)))
+	}
+	var out []int64
+	for _, t := range tf.getOverlaps(nil, icmp, umin, umax, overlapped) {
+		out = append(out, t.fd.Num)
+	}
+	return out
+}
+
+func storageTableFd(num int64) storage.FileDesc {
+	return storage.FileDesc{Type: storage.TypeTable, Num: num}
+}
